@@ -209,6 +209,44 @@ func VerifHarness_ConfigQueueReadinessRace() {
 	zz.Reach("readiness-race")
 }
 
+func zzConfigQueueBytes(h *clientConfigSessionHandler) int {
+	n := 0
+	for i := 0; i < h.mu.pluginMessages.Len(); i++ {
+		n += len(h.mu.pluginMessages.At(i).Data)
+	}
+	return n
+}
+
+// The byte counter always equals the bytes actually held, also when a flush fails half-way because
+// the backend connection breaks (the next backend then gets the flush): otherwise the 4 MiB bound is
+// not a bound on the buffer.
+func VerifHarness_ConfigQueueAccounting() {
+	pl, _ := zzC24Player()
+	h := &clientConfigSessionHandler{player: pl, log: logr.Discard()}
+	backend := newZZConn(767, state.Config)
+	sc := &serverConnection{connection: backend}
+	n := 1 + zz.Choose(2)
+	for i := 0; i < n; i++ {
+		zz.Assert(h.enqueuePluginMessage(sc, zzMsg(i)), "an early message was not queued")
+		zz.Assert(h.mu.pluginMessagesBytes == zzConfigQueueBytes(h), "the byte counter differs from the bytes held in the queue")
+	}
+	if zz.Bool() {
+		backend.writeErr = errZZWrite
+	}
+	err := h.flushQueuedPluginMessagesTo(sc)
+	zz.Assert((err != nil) == (backend.writeErr != nil), "the flush result does not reflect the backend write result")
+	zz.Assert(h.mu.pluginMessagesBytes == zzConfigQueueBytes(h), "after a flush the byte counter differs from the bytes still held (the byte cap no longer bounds the buffer)")
+	// more early messages for the next backend
+	next := &serverConnection{connection: newZZConn(767, state.Config)}
+	zz.Assert(h.enqueuePluginMessage(next, zzMsg(4)), "a message for a backend that is not ready was not queued")
+	zz.Assert(h.mu.pluginMessagesBytes == zzConfigQueueBytes(h), "the byte counter differs from the bytes held in the queue")
+	if err != nil {
+		zz.Reach("flush-failed")
+	} else {
+		zz.Reach("flush-ok")
+	}
+}
+
 func VerifMutant_QueueCaps() {
 	pl, _ := zzC24Player()
 	h := &clientConfigSessionHandler{player: pl, log: logr.Discard()}
